@@ -74,4 +74,8 @@ CLAIMED["C11"] = {"text": "The NewParagraphReader accept/reject flow is a TLA+ s
                   "design_ref": "3/C11", "note": _TB + " x/crypto OpenPGP is ground truth for classification.",
                   "technique": "TLC model checking of the verification flow over ideal signatures; byte-level fault enumeration on real clearsigned files judged by TLC"}
 
+CLAIMED["C19"] = {"text": "Sources, binaries and the three build-dependency fields are modelled in TLA+; Edges follows the property (first applicable non-substvar alternative per relation), cycles are computed by reachability, and AllowedOutcome says: a cycle through two or more sources => error, otherwise a permutation placing every source after the sources whose binaries it selects. TLC enumerates all labelled graphs over 2 and 3 sources, renders them as real multi-binary .dsc text (single-line and folded), the real ParseDsc + OrderDSCForBuild run five times each, and TLC judges the outcome; seeded graphs up to 12 sources x 4 binaries are judged the same way.",
+                  "design_ref": "3/C19", "note": _TB + " A source build-depending on its own binary (and in no longer cycle) is unspecified.",
+                  "technique": "TLC-enumerated dependency graphs rendered to .dsc by the TLA+ spec; outcomes validated by TLC with reachability-based cycle oracle"}
+
 NOT_APPLICABLE = {}
